@@ -167,7 +167,13 @@ where
     type Values = Timeline::Target;
 
     fn advance(&mut self, elapsed_seconds: f32) {
-        self.state_duration += Duration::from_secs_f32(elapsed_seconds);
+        // Saturate instead of panicking when the elapsed time does not fit in a `Duration`.
+        let elapsed = if elapsed_seconds >= Duration::MAX.as_secs_f32() {
+            Duration::MAX
+        } else {
+            Duration::from_secs_f32(elapsed_seconds)
+        };
+        self.state_duration = self.state_duration.saturating_add(elapsed);
         self.update_current_values();
     }
 
